@@ -51,7 +51,12 @@ def _lit(x):
         return Fraction(int(x))
     if isinstance(x, (float, np.floating)):
         from py2lean.sym import lit_of_float
-        return lit_of_float(float(x))
+        fr = lit_of_float(float(x))
+        if fr.denominator > 10 ** 6:
+            g = Fraction(float(x)).limit_denominator(10 ** 5)
+            if float(g) == float(x):
+                return g
+        return fr
     raise TypeError(type(x))
 
 
@@ -120,16 +125,24 @@ class Poly:
     def __ge__(self, o): return self._cmp(o, lambda a, b: a >= b)
     __hash__ = None
 
+    def __float__(self):      # `float(dt)` in DESolver._getdXdt: the symbol is replaced by its concrete value
+        return self.val
+
     def __repr__(self):
         return 'Poly(%s)' % ' + '.join('%s*%s' % (c, '*'.join(m) or '1') for m, c in sorted(self.terms.items()))
 
 
-def trace_iterator(which):
-    """run the real iterator on symbols; returns dict(c=[..], A=[[..]], b=[..]) of Fractions"""
+def _trace_once(which, dtval):
+    """run the real iterator on symbols; returns dict(c=[..], A=[[..]], b=[..]) of Fractions.
+    t and X are symbols; the proposed step is a symbol too, but DESolver._getdXdt hands the clamped step on as
+    `float(dt)`, so inside the iterator the step is the concrete dyadic number `dtval`: coefficients are read off
+    both forms (symbol `dt` or multiples of dtval), and trace_iterator() repeats the run with another dtval and
+    requires the same tableau (a genuine constant in the code would not scale with dt)."""
     vlib.use_repo()
     from kawin.solver.Solver import DESolver, SolverType
     s = DESolver({'euler': SolverType.EXPLICITEULER, 'rk4': SolverType.RK4}[which])
-    t, dt, x = Poly.atom('t', 0.3125), Poly.atom('dt', 0.25), Poly.atom('x', 1.75)
+    t, dt, x = Poly.atom('t', 0.3125), Poly.atom('dt', dtval), Poly.atom('x', 1.75)
+    dtq = _lit(dtval)
     calls = []
 
     def f(tt, xx):
@@ -139,7 +152,7 @@ def trace_iterator(which):
     s.setdXdtFunctions(f, s.correctdXdtNotImplemented, lambda dXdt: dt, s.flattenXNotImplemented, s.unflattenXNotImplemented)
     s._dtmin, s._dtmax, s._X0 = 1e-8, 1.0, x
     xnew, dtret = s.iterator(s._getdXdt, t, x, s._updateX)
-    if not (isinstance(dtret, Poly) and dtret.terms == {('dt',): 1}):
+    if not ((isinstance(dtret, Poly) and dtret.terms == {('dt',): 1}) or (not isinstance(dtret, Poly) and float(dtret) == dtval)):
         raise TranslatorError('%s: returned step is not the proposed dt: %r' % (which, dtret))
     n = len(calls)
     ks = ['k%d' % i for i in range(n)]
@@ -152,7 +165,7 @@ def trace_iterator(which):
             raise TranslatorError('%s: %s is not X_old + ...: %r' % (which, what, p))
         out = []
         for j in range(upto):
-            out.append(terms.pop(tuple(sorted(('dt', ks[j]))), Fraction(0)))
+            out.append(terms.pop(tuple(sorted(('dt', ks[j]))), Fraction(0)) + terms.pop((ks[j],), Fraction(0)) / dtq)
         if terms:
             raise TranslatorError('%s: %s has terms outside the Runge-Kutta form: %r' % (which, what, terms))
         return out
@@ -162,13 +175,21 @@ def trace_iterator(which):
         terms = dict(tt.terms)
         if terms.pop(('t',), None) != 1:
             raise TranslatorError('%s: stage %d time is not t + c*dt: %r' % (which, i, tt))
-        ci = terms.pop(('dt',), Fraction(0))
+        ci = terms.pop(('dt',), Fraction(0)) + terms.pop((), Fraction(0)) / dtq
         if terms:
             raise TranslatorError('%s: stage %d time is not t + c*dt: %r' % (which, i, tt))
         c.append(ci)
         A.append(stage_coeffs(xx, i, 'stage %d state' % i))
     b = stage_coeffs(xnew, n, 'result')
     return {'c': c, 'A': A, 'b': b}
+
+
+def trace_iterator(which):
+    T1 = _trace_once(which, 0.25)
+    T2 = _trace_once(which, 0.5)
+    if T1 != T2:
+        raise TranslatorError('%s: coefficients do not scale with dt (not a Runge-Kutta form): %r vs %r' % (which, T1, T2))
+    return T1
 
 
 def _q(fr):
